@@ -8,7 +8,8 @@ from props import rt
 PID = "C13"
 LEVEL = "proof"
 MODULE = "Sigc.Props.C13"
-REQUIRED = []
+EXTRA_MODULES = ("Sigc.Props.Refine",)   # the refinement P ⊑ S': what the specification says holds of the mechanism model
+REQUIRED = ["Sigc.Refine.refines"]
 TRUSTED = rt.TRUSTED_RT
 ASSUMPTIONS = rt.ASSUMPTIONS_RT + []
 PARTIAL = []
